@@ -206,6 +206,9 @@ def describe(kind, e, st, e2, atoms=None):
     return '%s: the decompiler returns a tree that is not an expression of this shape (%s)' % (text, e2)
 
 
+_case_key = {}        # failing case -> finding key (filled by classify)
+
+
 def classify(ctx, failing):
     """failing: list of (case, status, e2).  Minimise each with the real decompiler (Python-side evaluator), confirm the
     minimal inputs through Coq, group by key.  -> {key: (min_case, status, e2, count)}"""
@@ -228,6 +231,7 @@ def classify(ctx, failing):
             mc = {'kind': kind, 'e': m, 'atoms': None}
         g = groups.setdefault(key, {'count': 0, 'best': None})
         g['count'] += 1
+        _case_key[(kind, L.key_tuple(c['e']), tuple(c['atoms']) if c.get('atoms') else None)] = key
         cand = (L.size(mc['e']), -len(set(_atom_ids(mc['e']))), sorted(L.POSITIONS).index(mc['kind']), repr(L.key_tuple(mc['e'])))
         if g['best'] is None or cand < g['best'][0]:
             g['best'] = (cand, mc)
@@ -341,6 +345,9 @@ def search(ctx, deep):
         failures.append(f)
         bykey[key] = count
         _verdicts[(mc['kind'], L.key_tuple(mc['e']), tuple(mc['atoms']) if mc.get('atoms') else None)] = f
+    byk = {f.key: f for f in failures}
+    for ck, key in _case_key.items():
+        if key in byk: _verdicts.setdefault(ck, byk[key])
     dist['failing_inputs_by_key'] = bykey
     dist['exhaustive_cases'] = n_exh
     dist['random_cases'] = nrand
@@ -455,7 +462,7 @@ def correspondence(ctx):
                 # the theorem's family: beyond the ties, the REAL decompiler must return exactly the source
                 dist['dnf_family_cases'] = dist.get('dnf_family_cases', 0) + 1
                 if o['result'] != '(XGen PVar [[%s]])' % M.ptree(ast.parse(L.src(e), mode='eval').body):
-                    disagreements.append({'what': 'C03_andor_partial family: the real decompiler does not return the source', 'input': L.source_text(e, kind), 'impl': o['result']})
+                    disagreements.append({'what': 'C03_andor_partial(_cnf) family: the real decompiler does not return the source', 'input': L.source_text(e, kind), 'impl': o['result']})
             if L.natoms(e) > 6:
                 texprs.append('andb (compile_domain %s %s) (tie_noexec %s %s %s [%s] %d %s)' % (
                     M.POSITION[kind], L.coq(e), M.POSITION[kind], L.coq(e), M.coq_code(o['code']), ';'.join(map(str, o['orj'])), o['ce'], o['result']))
@@ -493,8 +500,10 @@ def correspondence(ctx):
                      'a model case = compile vs dis stream, or_jumps/conditions_end, decompile_code vs Decompiler.ast, exec vs eval, for one expression at one position')
 
 
-def dnf_family(rng):
-    """random instance of the family of C03_andor_partial: an `or` of `and`s of literals, up to 12 distinct atoms"""
+def dnf_family(rng, dual=False):
+    """random instance of the families of C03_andor_partial(_cnf): an `or` of `and`s of literals (dual: an `and` of `or`s),
+    up to 12 distinct atoms"""
+    inner, outer = ('Or', 'And') if dual else ('And', 'Or')
     m = rng.randint(1, 5)
     widths = [rng.randint(1, 4) for _ in range(m)]
     while sum(widths) > 12: widths[widths.index(max(widths))] -= 1
@@ -505,8 +514,8 @@ def dnf_family(rng):
     alts = []
     for w in widths:
         ls = [lit() for _ in range(w)]
-        alts.append(ls[0] if w == 1 else ('And', ls))
-    return alts[0] if m == 1 else ('Or', alts)
+        alts.append(ls[0] if w == 1 else (inner, ls))
+    return alts[0] if m == 1 else (outer, alts)
 
 
 def model_cases(ctx):
@@ -528,8 +537,8 @@ def model_cases(ctx):
         e, _ = random_bexp(rng, rng.randint(4, 8), rng.randint(2, 5), rich=False)
         out.append(('random', e, allpos))
     seen = set()
-    for i in range(ctx.scale(150, 3000)):
-        e = dnf_family(rng)
+    for i in range(ctx.scale(240, 4000)):
+        e = dnf_family(rng, dual=(i % 2 == 1))
         if L.key_tuple(e) in seen: continue
         seen.add(L.key_tuple(e))
         out.append(('dnf-family', e, ['filter']))
@@ -565,8 +574,8 @@ LEVEL_TEXT = ('Machine-checked proofs (Coq 8.16.1, closed under the global conte
               'for any number of atoms (C03_checker_sound / _truth_sound / _complete); every output of the REAL decompiler is judged by it (vm_compute), exhaustively for all boolean-structure '
               'expressions up to the size bound at 7 positions and randomly beyond; the non-boolean grammar is checked by tree equality. (2) On an executable model of CPython 3.12 code generation + '
               'Pony\'s Decompiler, compared with the real bytecode, Decompiler.instructions, or_jumps, conditions_end and the final AST on every run (no disagreement on ~90k cases in the thorough tier): '
-              'C03_compile_sound (exec of the compiled stream = eval, all expressions without if-else, all 5 positions) and the round trip C03_andor_partial for the unbounded family "or of ands of '
-              'literals, any widths" in filter position. The full and/or/not round trip is REFUTED (6-operand and/or expression), as are the classes with == operands, if-else and constants: '
+              'C03_compile_sound (exec of the compiled stream = eval, all expressions without if-else, all 5 positions) and the round trip C03_andor_partial / C03_andor_partial_cnf for the two '
+              'unbounded families "or of ands of literals" and "and of ors of literals" (any number of groups, any widths) in filter position. The full and/or/not round trip is REFUTED (6-operand and/or expression), as are the classes with == operands, if-else and constants: '
               '19 recorded findings with vm_compute witnesses in Findings/C03.v.')
 LEVEL_NOTE = ('Partial: the proof covers the checker and a sub-family of the round trip; the statement for the whole accepted grammar rests on exhaustive bounded + random validation of the real decompiler '
               'through the verified checker and on the correspondence of the model. Trusted: Coq kernel + vm_compute; the serialisation harness; the 4-valued domain as an abstraction of Python values; '
